@@ -165,7 +165,10 @@ Seeds ==
     [] Profile = "C10" ->
          {<<NewArgs("align", NUCLEOTIDS, 0, <<Row(nA, <<65, 67, 71, 84>>), Row(nB, <<67, 45, 84, 65>>), Row(nC, <<71, 84, 46, 67>>)>>),
             NewArgs("align", AMINOACIDS, 0, <<Row(nA, <<65, 42>>), Row(nB, <<81, 45>>)>>)>>,
-          <<NewArgs("align", NUCLEOTIDS, 0, <<Row(nA, <<65>>)>>), NewArgs("align", NUCLEOTIDS, 0, <<Row(nA, <<65, 67>>), Row(nB, <<71, 84>>)>>)>>}
+          <<NewArgs("align", NUCLEOTIDS, 0, <<Row(nA, <<65>>)>>), NewArgs("align", NUCLEOTIDS, 0, <<Row(nA, <<65, 67>>), Row(nB, <<71, 84>>)>>)>>,
+          \* eight pairwise different rows: several pairs are swapped / recombined in one call, at different break points
+          <<NewArgs("align", NUCLEOTIDS, 0, [r \in 1..8 |-> Row(<<114, ZERO + r>>, [c \in 1..10 |-> <<65, 67, 71, 84>>[(((r * 3 + c * r + (c \div 3)) % 4) + 1)]])]),
+            NewArgs("align", NUCLEOTIDS, 0, <<Row(nA, <<65>>)>>)>>}
     [] OTHER -> {}
 
 \* ---- operation instances enabled in a heap ------------------------------------------------------
@@ -327,6 +330,10 @@ InstC10(h) ==
   {Inst("ShuffleSequences", r, [seed |-> 5])}
   \cup {Inst("ShuffleSites", r, [rp |-> a[1], rq |-> 4, gp |-> b[1], gq |-> 4, first |-> f, seed |-> 5]) : a \in Rates \ {<<-1, 4>>, <<5, 4>>}, b \in Rates \ {<<-1, 4>>, <<5, 4>>}, f \in Bools}
   \cup {Inst("Swap", r, [rp |-> a[1], rq |-> 4, posp |-> b[1], posq |-> 4, seed |-> 5]) : a \in Rates, b \in Rates}
+  \cup (IF Len(h[r].rows) >= 8
+        THEN {Inst("Swap", r, [rp |-> a, rq |-> 4, posp |-> -1, posq |-> 4, seed |-> sd]) : a \in {2, 4}, sd \in 1..10}
+             \cup {Inst("Recombine", r, [pp |-> a, pq |-> 4, lp |-> b, lq |-> 4, swap |-> sw, seed |-> sd]) : a \in {2, 4}, b \in {1, 2}, sw \in Bools, sd \in 1..4}
+        ELSE {})
   \cup {Inst("SimulateRogue", r, [pp |-> a[1], pq |-> 4, lp |-> b[1], lq |-> 4, seed |-> 5]) : a \in Rates, b \in Rates}
   \cup {Inst("BuildBootstrap", r, [fp |-> a[1], fq |-> 4, seed |-> 5]) : a \in Rates}
   \cup {Inst("Sample", r, [nb |-> k, seed |-> 5]) : k \in 0..(Len(h[r].rows) + 1)}
